@@ -418,6 +418,9 @@ fn run(ctx: &mut Ctx) {
     if ctx.shard == 1 % ctx.nshards {
         spelling_slice(ctx);
     }
+    if ctx.shard == 2 % ctx.nshards {
+        echo_then_error_slice(ctx);
+    }
     binary_slice(ctx);
     let _ = std::fs::remove_file(ctx.sbx.join(".mc-xin"));
 }
@@ -547,6 +550,38 @@ fn scale_slice(ctx: &mut Ctx) {
     }
 }
 
+/// xargs without a command (its own echo) whose run ends with an error: what the earlier command lines
+/// wrote has reached standard output (a pipe) when xargs exits 1 — nothing already processed is lost.
+fn echo_then_error_slice(ctx: &mut Ctx) {
+    use std::ffi::OsStr;
+    let sbx = ctx.sbx.clone();
+    let cases: Vec<(Vec<&str>, &[u8], &str, i32)> = vec![
+        (vec!["-n1"], b"a b\nc \"d\n", "a\nb\n", 1),
+        // (whether the last complete command line before the error still runs is not stated: only the
+        // ones that were dispatched because a further argument had arrived are required)
+        (vec!["-n2"], b"a b c d 'e\n", "a b\n", 1),
+        (vec!["-L1", "-s", "12", "-x"], b"aa\nbb\ncccccccccccccccccc dddd\n", "aa\nbb\n", 1),
+        (vec!["-s", "12", "-n1"], b"aa\nbb\ncccccccccccccccccc\nzz\n", "aa\nbb\n", 1),
+        (vec!["-n1"], b"a b\nc d\n", "a\nb\nc\nd\n", 0),
+        (vec!["-t", "-n1"], b"a b\n", "a\nb\n", 0),
+    ];
+    for (opts, input, want_prefix, want_code) in cases {
+        let args: Vec<&OsStr> = opts.iter().map(OsStr::new).collect();
+        let o = crate::binrun::run(&crate::binrun::repo_bin("xargs"), &args, &sbx, &crate::binrun::Opts { stdin: Some(input.to_vec()), timeout_s: 30, ..Default::default() });
+        ctx.rep.evaluations += 1;
+        ctx.rep.nontrivial += 1;
+        ctx.rep.count("echo_then_error_cases", 1);
+        let out = String::from_utf8_lossy(&o.out).to_string();
+        if o.code != Some(want_code) || !out.starts_with(want_prefix) || (want_code == 0 && out != want_prefix) {
+            ctx.rep.violation(
+                "C04 xargs' own echo: the output of command lines already run is lost (or the status is wrong) when the run ends",
+                format!("xargs {:?} < {:?} | cat: status {:?} (expected {want_code}), standard output {:?} (must begin with {:?}); stderr {:?}", opts, String::from_utf8_lossy(input), o.code, out, want_prefix, String::from_utf8_lossy(&o.err).lines().take(2).collect::<Vec<_>>()),
+                json!({"prop":"C04","echo_then_error":true}),
+            );
+        }
+    }
+}
+
 fn binary_slice(ctx: &mut Ctx) {
     let maxlen = ctx.tier.pick(2, 3);
     let vrec = crate::engine::self_bin_dir().join("vrec");
@@ -630,6 +665,10 @@ fn binary_slice(ctx: &mut Ctx) {
 }
 
 fn replay(case: &Value, ctx: &mut Ctx) -> Option<String> {
+    if case["echo_then_error"] == true {
+        echo_then_error_slice(ctx);
+        return ctx.rep.violations.keys().next().cloned();
+    }
     if case["spelling"].is_string() {
         spelling_slice(ctx);
         return ctx.rep.violations.keys().next().cloned();
